@@ -7,10 +7,6 @@ C02, typed reads, part 1: what the column getters (`primGet`, `boolGet`, `bytesC
 namespace SaModel.Read
 open SaModel SaModel.Spec
 
-def LVal.isNull : LVal → Bool
-  | .null => true
-  | _ => false
-
 theorem guarded_inv {c : Prop} [Decidable c] {v : Option Bits} {i : Nat} {p : R LVal} {lv : LVal}
     (h : (if c then withValidity v i p else oob) = .ok lv) :
     c ∧ ((isValid v i = .ok false ∧ lv = .null) ∨ (isValid v i = .ok true ∧ p = .ok lv)) := by
